@@ -46,7 +46,14 @@ type NatOp struct {
 const (
 	natTransfer = iota
 	natSetFee   // Policy.setFeePerByte(Val), needs the committee witness
+	natBlock    // Policy.blockAccount(account Val), committee
+	natUnblock  // Policy.unblockAccount(account Val), committee
+	natDeploy   // ContractManagement.deploy(auxiliary contract Val)
 )
+
+const numAux = 3 // auxiliary contracts that trees may deploy
+
+var plainAccounts = []int{6, 7, 8} // accounts that are not contracts (GAS receivers, block targets)
 
 // ---------- text for the Lean driver ----------
 
@@ -100,6 +107,12 @@ func nodeText(sb *strings.Builder, n *Node) {
 			listText(sb, n.Nat.Cb)
 		case natSetFee:
 			fmt.Fprintf(sb, "F %d %d ", n.Nat.Val, n.Fl)
+		case natBlock:
+			fmt.Fprintf(sb, "B %d %d ", n.Nat.Val, n.Fl)
+		case natUnblock:
+			fmt.Fprintf(sb, "U %d %d ", n.Nat.Val, n.Fl)
+		case natDeploy:
+			fmt.Fprintf(sb, "Y %d %d ", n.Nat.Val, n.Fl)
 		}
 	default:
 		panic("bad node")
@@ -118,7 +131,11 @@ type world struct {
 	hashes   [numContracts]util.Uint160
 	gas, neo util.Uint160
 	policy   util.Uint160
-	ext      util.Uint160 // an ordinary account (no contract)
+	mgmt     util.Uint160
+	plain    map[int]util.Uint160 // ordinary accounts (no contract)
+	auxNef   [numAux][]byte
+	auxMan   [numAux][]byte
+	auxHash  [numAux]util.Uint160
 }
 
 func keyBytes(k int) []byte { return []byte{byte(k)} }
@@ -146,13 +163,19 @@ func (w *world) nativeArgs(n *Node, self util.Uint160, selfID int) (util.Uint160
 		if n.Nat.HasCb {
 			data = w.encList(n.Nat.Cb, n.Nat.To)
 		}
-		to := w.ext
+		to := w.plain[n.Nat.To]
 		if n.Nat.To < numContracts {
 			to = w.hashes[n.Nat.To]
 		}
 		return tok, "transfer", []any{self, to, int64(n.Nat.Amt), data}
 	case natSetFee:
 		return w.policy, "setFeePerByte", []any{int64(n.Nat.Val)}
+	case natBlock:
+		return w.policy, "blockAccount", []any{w.plain[n.Nat.Val]}
+	case natUnblock:
+		return w.policy, "unblockAccount", []any{w.plain[n.Nat.Val]}
+	case natDeploy:
+		return w.mgmt, "deploy", []any{w.auxNef[n.Nat.Val], w.auxMan[n.Nat.Val]}
 	}
 	panic("bad native op")
 }
